@@ -206,6 +206,24 @@ fn c18b_maid_size_8_sections() {
     std::mem::forget(c);
 }
 
+
+/// size() of the file-id table equals sections x 64 x 64 x 4 bytes (the published layout) for any section count
+#[kani::proof]
+#[kani::stub(std::fmt::format, vio::fmt_stub)]
+#[kani::unwind(66)]
+fn c18b_maid_size_formula() {
+    const KS: [usize; 4] = [0, 1, 2, 9];
+    let mut i = 0;
+    while i < 4 {
+        let c = MaidChunk::with_section_count(KS[i]);
+        kani::cover!(i == 3);
+        assert!(c.section_count() == KS[i]);
+        assert!(c.size() == KS[i] * 64 * 64 * 4, "MAID size() differs from sections * 64 * 64 * 4 bytes");
+        std::mem::forget(c);
+        i += 1;
+    }
+}
+
 /// MAID write -> read keeps a file id at an arbitrary position of section 0 (1 section)
 #[kani::proof]
 #[kani::stub(std::fmt::format, vio::fmt_stub)]
